@@ -1015,6 +1015,10 @@ func (c *SpecCtx) evalCall(x *ast.CallExpr) *SV {
 		a := c.eval(x.Args[0])
 		t := c.resolveType(x.Args[1])
 		return boolSV(ex.dynTypeIs(ex.valTerm(a.V), t))
+	case "recvReady":
+		a := c.eval(x.Args[0])
+		f := ex.env.d.Func("recvReady", SBool, SRef)
+		return boolSV(ex.env.d.Apply(f.Name, ex.valTerm(a.V)))
 	case "closed":
 		a := c.eval(x.Args[0])
 		return boolSV(Select(ex.heapGet(c.st, "chan closed", ArraySort(SRef, SBool)), ex.valTerm(a.V)))
